@@ -928,9 +928,25 @@ class Fn:
                         bb = nxt
                         continue
                     key, flipped = canon_decision(dterm)
+                    okey, omap = option_decision(dterm)
+                    if okey is not None:
+                        key, flipped = okey, False
+                    else:
+                        omap = None
+                    canon = (lambda lab: omap.get(lab, lab)) if omap else ((lambda lab: flip_label(lab)) if flipped else (lambda lab: lab))
+                    if okey is not None and okey[0] == 'od':
+                        # the tested Option/Result was built on this path (possibly by an inlined helper)
+                        kv2 = known_variant(('discr', okey[1], ''), facts)
+                        if kv2 is not None:
+                            nxt = [tt for (v, tt), lab in zip(targets, labels[:-1]) if canon(lab) == kv2]
+                            if not nxt and canon(labels[-1]) == kv2 or not nxt and labels[-1].startswith('!'):
+                                nxt = [otherwise]
+                            if nxt:
+                                bb = nxt[0]
+                                continue
                     choices = [(lab, tt) for (v, tt), lab in zip(targets, labels[:-1])] + [(labels[-1], otherwise)]
                     if key in memo:
-                        choices = [(lab, tt) for lab, tt in choices if memo_compatible(memo[key], flip_label(lab) if flipped else lab)]
+                        choices = [(lab, tt) for lab, tt in choices if memo_compatible(memo[key], canon(lab))]
                     branches = []
                     for lab, tt in choices:
                         if tt not in blocks:
@@ -944,7 +960,7 @@ class Fn:
                         return
                     for lab, tt, e in branches:
                         m2 = dict(memo)
-                        m2[key] = memo_update(memo.get(key), flip_label(lab) if flipped else lab)
+                        m2[key] = memo_update(memo.get(key), canon(lab))
                         ev = Ev('atom', bb, t['line'], held_of(guards), t.get('mac'), term=dterm, outcome=lab)
                         u2 = dict(used)
                         u2[e] = u2.get(e, 0) + 1
@@ -982,6 +998,65 @@ class Fn:
                 return labs + [other]
         labs = [str(v) for v in vals]
         return labs + ['!' + '|'.join(labs)]
+
+
+_OPT_PEEL = ('Option::as_ref', 'Option::as_mut', 'Option::as_deref', 'Option::as_deref_mut', 'Result::as_ref', 'Result::as_mut')
+
+
+def option_subject(x):
+    """the Option/Result value whose emptiness `x` shares (as_ref & co. keep the variant)"""
+    while x[0] == 'call' and len(x[2]) == 1 and any(norm_callee(x[1]).endswith(n) for n in _OPT_PEEL):
+        x = x[2][0]
+    return x
+
+
+def is_bool_then(callee):
+    return 'core::bool::' in callee and (callee.endswith('::then_some') or callee.endswith('::then'))
+
+
+def option_decision(t):
+    k, m = _option_decision(t)
+    if k is not None and k[1][0] == 'call' and len(k[1][2]) == 2 and is_bool_then(k[1][1]):
+        # Some-ness of `b.then_some(x)` / `b.then(f)` IS the boolean b
+        bk, fl = canon_decision(k[1][2][0])
+        to_b = {'Some': 'false' if fl else 'true', 'None': 'true' if fl else 'false'}
+        if not m:
+            return bk, to_b
+        return bk, {lab: to_b.get(v, v) for lab, v in m.items()}
+    return k, m
+
+
+def _option_decision(t):
+    """(memo key, label map) so that `match x {Some..}`, `x.is_some()`, `x.is_none()`, `x?` (and the
+    Result forms) share ONE decision per path; (None, None) when t is not such a test"""
+    neg = False
+    while t[0] == 'un' and t[1] == 'Not':
+        t = t[2]
+        neg = not neg
+    if t[0] == 'call' and len(t[2]) == 1:
+        nc = norm_callee(t[1])
+        for nm, tv, fv in (('Option::is_some', 'Some', 'None'), ('Option::is_none', 'None', 'Some'),
+                           ('Result::is_ok', 'Ok', 'Err'), ('Result::is_err', 'Err', 'Ok')):
+            if nc.endswith(nm):
+                if neg:
+                    tv, fv = fv, tv
+                return ('od', option_subject(t[2][0])), {'true': tv, 'false': fv}
+        return None, None
+    if neg:
+        return None, None
+    if t[0] == 'discr':
+        x = t[1]
+        adt = t[2] if len(t) > 2 else ''
+        if x[0] == 'call' and len(x[2]) == 1 and (norm_callee(x[1]).endswith('Try>::branch') or norm_callee(x[1]).endswith('Try::branch')):
+            c = x[1]
+            if 'option::Option<' in c.split(' as ')[0]:
+                return ('od', option_subject(x[2][0])), {'Continue': 'Some', 'Break': 'None'}
+            if 'result::Result<' in c.split(' as ')[0]:
+                return ('od', option_subject(x[2][0])), {'Continue': 'Ok', 'Break': 'Err'}
+            return None, None
+        if adt.endswith('option::Option') or adt.endswith('result::Result'):
+            return ('od', option_subject(x)), {}
+    return None, None
 
 
 def flip_label(lab):
@@ -1055,6 +1130,22 @@ def fold_call(callee, args):
             return ('const', 'true' if a[2] == 'None' else 'false')
         if callee.endswith('::is_some'):
             return ('const', 'true' if a[2] == 'Some' else 'false')
+    nc = norm_callee(callee)
+    if nc.endswith('Try>::branch') or nc.endswith('Try::branch'):
+        # `?` applied to the value an inlined helper returned through its own `?`, or to a value built
+        # on this path
+        if a[0] == 'call' and (norm_callee(a[1]).endswith('FromResidual>::from_residual') or norm_callee(a[1]).endswith('::from_residual')) and a[2]:
+            return ('agg', 'std::ops::ControlFlow', 'Break', (a[2][0],), '0')
+        if a[0] == 'agg' and a[1].endswith('result::Result') and len(a[3]) == 1:
+            if a[2] == 'Ok':
+                return ('agg', 'std::ops::ControlFlow', 'Continue', (a[3][0],), '0')
+            if a[2] == 'Err':
+                return ('agg', 'std::ops::ControlFlow', 'Break', (a,), '0')
+        if a[0] == 'agg' and a[1].endswith('option::Option'):
+            if a[2] == 'Some' and len(a[3]) == 1:
+                return ('agg', 'std::ops::ControlFlow', 'Continue', (a[3][0],), '0')
+            if a[2] == 'None':
+                return ('agg', 'std::ops::ControlFlow', 'Break', (a,), '0')
     if len(args) == 2 and (callee.endswith('PartialEq>::eq') or callee.endswith('PartialEq::eq')
                            or callee.endswith('PartialEq>::ne') or callee.endswith('PartialEq::ne')):
         b = args[1]
@@ -1141,6 +1232,13 @@ def known_variant(t, facts):
         x = t[1]
         if x[0] == 'agg' and x[2]:
             return x[2]
+        if x[0] == 'call' and x[1].endswith('::from_residual') and ' as ' in x[1]:
+            # the value `?` returns early with: None for Option, Err(..) for Result
+            self_ty = x[1].split(' as ')[0]
+            if 'option::Option<' in self_ty:
+                return 'None'
+            if 'result::Result<' in self_ty:
+                return 'Err'
         if x[0] == 'const':
             v = x[1].split('::')[-1]
             en = facts.enums.get(t[2]) if len(t) > 2 else None
